@@ -211,12 +211,19 @@ def coq_eval_cases(cases_v, timeout=900):
     p = sh(["timeout", str(timeout), "coqc", "-noglob", "-Q", COQ, "PT", os.path.basename(cases_v)], cwd=d, timeout=timeout + 30)
     if p.returncode != 0:
         raise RuntimeError("coqc failed on %s:\n%s" % (cases_v, (p.stdout + p.stderr)[-3000:]))
-    txt = p.stdout
-    i = txt.find("M =")
-    if i < 0:
-        raise RuntimeError("no result in coqc output: " + txt[-2000:])
-    body = txt[i:]
-    return [(int(a), int(b), int(c)) for a, b, c in PAIR.findall(body)], p.wall
+    txt = re.sub(r"\s+", "", p.stdout).replace("%nat", "")
+    m = re.search(r"M=\[(.*?)\]:list\(nat\*\(nat\*nat\)\)", txt)
+    if not m:
+        raise RuntimeError("unexpected coqc output for %s: %s" % (cases_v, p.stdout[-1500:]))
+    body = m.group(1)
+    out = []
+    if body:
+        for item in body.split(";"):
+            mm = re.fullmatch(r"\((\d+),\((\d+),(\d+)\)\)", item)
+            if not mm:
+                raise RuntimeError("unparsable result item %r in %s" % (item, cases_v))
+            out.append((int(mm.group(1)), int(mm.group(2)), int(mm.group(3))))
+    return out, p.wall
 
 
 # ---------------------------------------------------------------- known findings
